@@ -144,7 +144,14 @@ func Schema(rng *rand.Rand, c *SchemaCfg, depth int) jx.Obj {
 			"patternProperties": jx.Obj{"^" + AnyName(rng, c.Hostile, 0): sub(), "^x-" + strconv.Itoa(c.next()): sub()}}
 	case "definitions":
 		return jx.Obj{"type": "object", "description": "sd" + strconv.Itoa(c.next()),
-			"definitions": jx.Obj{AnyName(rng, c.Hostile, 0): sub()}, "properties": jx.Obj{"p": sub()}}
+			"definitions": func() jx.Obj {
+				// one to three entries (several entries of one map are where a shared loop variable shows)
+				ds := jx.Obj{AnyName(rng, c.Hostile, 0): sub()}
+				for i := rng.IntN(3); i > 0; i-- {
+					ds[AnyName(rng, c.Hostile, i)+"_"+strconv.Itoa(c.next())] = sub()
+				}
+				return ds
+			}(), "properties": jx.Obj{"p": sub()}}
 	}
 	return Prim(rng, c)
 }
